@@ -100,6 +100,9 @@ def expansions():
     out.append(("inc = x:'a' y:['b'] ;\ns = >inc 'c' ;\n", grammar(rule('inc', inc), rule('s', seq(inc, c)))))
     out.append(("inc = 'a' | 'b' 'b' ;\ns = {>inc}+ 'c' ;\n", grammar(rule('inc', alt(a, seq(b, b))), rule('s', seq(plus(alt(a, seq(b, b))), c)))))
     out.append(("inc = 'a' ~ 'b' ;\ns = >inc 'c' | 'a' ;\n", grammar(rule('inc', seq(a, cut(), b)), rule('s', alt(seq(seq(a, cut(), b), c), a)))))
+    # the cut of an included right-hand side is a cut at the place of the include: in the closure iteration, which the optional around the closure absorbs
+    out.append(("inc = 'a' ~ 'b' ;\ns = [{>inc}] 'a' 'c' ;\n", grammar(rule('inc', seq(a, cut(), b)), rule('s', seq(opt(star(seq(a, cut(), b))), a, c)))))
+    out.append(("inc = 'a' ~ 'b' ;\ns = [[>inc]] 'a' 'c' ;\n", grammar(rule('inc', seq(a, cut(), b)), rule('s', seq(opt(opt(seq(a, cut(), b))), a, c)))))
     out.append(("inc = @:'a' ;\ns = 'b' >inc 'c' ;\n", grammar(rule('inc', ovr(a)), rule('s', seq(b, ovr(a), c)))))
     out.append(("base = x:'a' ;\ns < base = y:'b' ;\n", grammar(rule('base', named('x', a)), rule('s', seq(named('x', a), named('y', b))))))
     out.append(("base = 'a' | 'c' ;\ns < base = {'b'} ;\n", grammar(rule('base', alt(a, c)), rule('s', seq(alt(a, c), star(b))))))
